@@ -122,3 +122,15 @@ Theorem C01_rev_scan_skeleton_is_code : forall d p k l_init,
        (G.gen_rev_entry_hour (k_dep k) (k_arr k) (k_minAcc k) (k_minEgr k) (q_minw p) (k_maxAcc k) (k_maxEgr k)) l_init d p k).
 Proof. exact rev_scan_skel_tie. Qed.
 Print Assumptions C01_rev_scan_skeleton_is_code.
+
+(* tie to the source, stage 3b: the step-emission loop of reverse_journey.cpp - every guard, every right-hand side, every
+   step argument, and the assignments to the result after the loop - is read from the source AS IT IS NOW by
+   tools/gen_emit.py (gen/Emit.v) and executed by the interpreter of Emit.v; the model computes the same, for all values
+   `tmp` left in the temporaries (1-based stop sequences: `seq_ok`).  D17 was a missing `if (totalDistance != -1)` here *)
+Require Import TrV.Emit.
+From TrV Require Import Proofs.EmitTie.
+(* declarations (gen/Consts.v), loop and result assignments together: the route the model emits is the one the source
+   computes as it is written now *)
+Theorem C01_emit_is_code : forall d p bestdep js tmp, Forall seq_ok js -> emit d p bestdep js = emit_code d p bestdep js tmp.
+Proof. exact emit_skel_tie. Qed.
+Print Assumptions C01_emit_is_code.
